@@ -329,3 +329,98 @@ def raiser_episode(seed):
                                "different schedule (a user observer raised once on the way)"))
     del hist
     return out
+
+
+# ---------------------------------------------------------------------------------------------
+# A user-defined ready-operations filter, and requests for operations it hides (C01, C02, C11, C16)
+# ---------------------------------------------------------------------------------------------
+def custom_filter_episode(seed):
+    """A dispatcher with a USER-DEFINED ready-operations filter (any callable is allowed: this one keeps only the longest ready
+    operations, or drops the first one) - the caller dispatches whatever is ready, also operations the filter hides.  The filter decides
+    what `available_operations()` shows and hence what "now" is; it has no say in when an operation starts.
+    Returns {"C01": [...], "C02": [...], "C11": [...], "C16": [...]}."""
+    import random
+    import gen
+    import jsl
+    from impl import build_instance
+    from job_shop_lib.dispatching.feature_observers import EarliestStartTimeObserver
+    from job_shop_lib.graphs import build_solved_disjunctive_graph
+    r = random.Random(seed)
+    _, jobs = gen.gen_instance(r, r.choice(["classic", "irregular", "recirc", "ties"]), max_jobs=3, max_machines=3, max_ops=3)
+    jobs = [[(ms, max(1, d)) for ms, d in job] for job in jobs]
+    inst = build_instance(jobs)
+    kind = r.choice(["longest", "drop_first", "last_job"])
+
+    def user_filter(dispatcher, operations):
+        if not operations:
+            return operations
+        if kind == "longest":
+            top = max(o.duration for o in operations)
+            return [o for o in operations if o.duration == top]
+        if kind == "drop_first":
+            return operations[1:] if len(operations) > 1 else operations
+        top = max(o.job_id for o in operations)
+        return [o for o in operations if o.job_id == top]
+    d = jsl.Dispatcher(inst, ready_operations_filter=user_filter)
+    est_obs = EarliestStartTimeObserver(d)
+    out = {"C01": [], "C02": [], "C11": [], "C16": []}
+    tr = gen.Tracker(jobs)
+    recorded = []
+    while not tr.done():
+        j, p, m = gen.gen_valid_request(r, tr)
+        op = inst.jobs[j][p]
+        mm = op.machines[0] if m == "none" else int(m)
+        before = [list(ms) for ms in d.schedule.schedule]
+        want_start = forced_start(inst, before, op, mm)
+        d.dispatch(op, None if m == "none" else int(m))
+        tr.take(j)
+        recorded.append((op, mm))
+        lists = d.schedule.schedule
+        sop = next(x for ms in lists for x in ms if x.operation is op)
+        what = f"`dispatch(op {op.operation_id}, machine {mm})` under a user-defined filter ({kind})"
+        if sop.start_time != want_start:
+            out["C02"].append(("start", f"{what}: started at {sop.start_time}, forced start max(job_ready, machine_free) = {want_start}"))
+        for prob in feasible(inst, lists)[:2]:
+            out["C01"].append(("infeasible", f"after {what}: {prob}"))
+        # C11: the earliest-start observer reports, for every unscheduled operation, its earliest start minus the current time - where
+        # the current time is what the (filtered) available operations imply
+        v = View(inst, lists)
+        avail = user_filter(d, v.raw_ready())
+        now = v.min_start(avail)
+        if d.current_time() != now:
+            out["C11"].append(("now", f"after {what}: current_time() = {d.current_time()}, the available operations imply {now}"))
+        col = est_obs.features[next(k for k in est_obs.features if k.name == "OPERATIONS")]
+        for jj, job in enumerate(inst.jobs):
+            prev = v.job_ready[jj]
+            for pp in range(v.next_pos[jj], len(job)):
+                o = job[pp]
+                s = max(prev, min(v.mach_free[mx] for mx in o.machines))
+                got = float(col[o.operation_id][0])
+                if got != float(s - now):
+                    out["C11"].append(("earliest_start_time:operations", f"after {what}: earliest_start_time feature operations[{o.operation_id}] = "
+                                       f"{got}, recomputation from the schedule gives {s} - {now} = {s - now}"))
+                prev = s + o.duration
+        for k_ in out:
+            del out[k_][3:]             # (a few messages per property are enough; the episode goes on: C16 is judged at its end)
+    # C16: the solved graph of this dispatcher-built schedule: longest duration-weighted source-to-sink path = makespan
+    import networkx as nx
+    g = build_solved_disjunctive_graph(d.schedule)
+    G = g.graph
+    dur = {n.node_id: (n.operation.duration if n.node_type.name == "OPERATION" else 0) for n in g.nodes}
+    if not nx.is_directed_acyclic_graph(G):
+        out["C16"].append(("cyclic", f"the solved graph of a dispatcher-built schedule (user-defined filter {kind}) has a cycle"))
+    else:
+        best = {}
+        for n in nx.topological_sort(G):
+            best[n] = dur[n] + max((best[u] for u in G.predecessors(n)), default=0)
+        longest = max(best.values(), default=0)
+        if longest != d.schedule.makespan():
+            out["C16"].append(("critical-path", f"dispatcher-built schedule (user-defined filter {kind}, operations it hides dispatched too): longest "
+                               f"duration-weighted path {longest}, makespan {d.schedule.makespan()}"))
+    fresh = jsl.Dispatcher(inst)
+    for op, mm in recorded:
+        fresh.dispatch(op, mm)
+    if dump_schedule(fresh.schedule.schedule) != dump_schedule(d.schedule.schedule):
+        out["C02"].append(("replay-fresh", f"replaying the (operation, machine) sequence on a fresh dispatcher WITHOUT the user's filter gives another "
+                           "schedule: the filter influenced start times"))
+    return out
